@@ -791,6 +791,7 @@ def check_history(case, out):
         ret, st = o
         if st[-1] < now:
             fail("clock went backwards (harness)", step)
+        before_now = now
         now = st[-1]
         code = op[0]
         before = keys_of(prev_state)
@@ -833,6 +834,10 @@ def check_history(case, out):
                 if val is None or val[0] != op[2]:
                     fail("put did not store the answer", step)
                     val = [op[2], 0]
+                made_at = before_now + (op[4][0] if op[4] else 0)
+                if val[1] != made_at + min(op[3]):
+                    fail("Answer.expiration is not its creation time plus the minimum TTL", step,
+                         expiration=val[1], created=made_at, ttls=op[3])
             evicted = [g for g in gone if g != k]
             if k not in after:
                 fail("put did not store the key", step)
@@ -964,6 +969,19 @@ def ast_guard():
         got = seen.get(cname, [])
         if sorted(got) != sorted(want):
             problems.append(f"{cname}: public methods are {sorted(got)}, the model covers {sorted(want)}")
+    # private helpers that touch shared state are only reached from the guarded methods
+    allowed = {("Cache", m) for m in GUARDED["Cache"]} | {("LRUCache", m) for m in GUARDED["LRUCache"]}
+    for cls in tree.body:
+        if not isinstance(cls, ast.ClassDef):
+            continue
+        for fn in ast.walk(cls):
+            if not isinstance(fn, ast.FunctionDef):
+                continue
+            for node in ast.walk(fn):
+                if isinstance(node, ast.Call) and isinstance(node.func, ast.Attribute) \
+                        and node.func.attr in ("_maybe_clean", "unlink", "link_after"):
+                    if (cls.name, fn.name) not in allowed and not (cls.name == "LRUCacheNode"):
+                        problems.append(f"{cls.name}.{fn.name} calls {node.func.attr} outside the guarded methods")
     # the lock itself: CacheBase.__init__ creates self.lock = threading.Lock()
     src = ast.unparse(next(c for c in tree.body if isinstance(c, ast.ClassDef) and c.name == "CacheBase"))
     if "self.lock = threading.Lock()" not in src:
